@@ -50,6 +50,9 @@ pub fn case(ch: &mut Chooser, max_depth: u32) -> Report {
     if labels.applies > 0 {
         rep.label("apply");
     }
+    if labels.closure_per_round > 0 {
+        rep.label("one-closure-per-round-of-a-self-tail-call");
+    }
     if labels.let_over_lambda > 0 {
         rep.label("internal-def-let-over-lambda");
     }
@@ -103,7 +106,7 @@ pub fn run(ctx: &Ctx) {
          a forward reference among internal definitions, or apply.",
     );
     ctx.assume("reference evaluator refeval.rs (own unit tests from R7RS examples) is trusted; integer results beyond i32 put a case outside the class (counted)");
-    let cases = ctx.tier.pick(4_000, 80_000);
+    let cases = ctx.tier.pick(12_000, 80_000);
     let depth = ctx.tier.pick(4, 6);
     ctx.random("programs", cases, 700, |ch| case(ch, depth));
 }
